@@ -201,6 +201,9 @@ def _with_option_record(tkey, edit):
         elif cid == b"CHDT" and cur == t.options_chnm:
             d = edit(d)
             cur = None
+            if d is None:            # no options record at all: the CHNM naming it goes, too
+                out.pop()
+                continue
         out.append((cid, d))
     return codec.build_chunks(out)
 
@@ -228,14 +231,16 @@ def foreign_records(tkey):
         return None
 
     full = record_len(C.save(rv.Synth(cls_of(tkey)())))
-    for length in range(0, full):
-        data = _with_option_record(tkey, lambda d: d[:length])
+    for length in [-1] + list(range(0, full)):
+        data = _with_option_record(tkey, (lambda d: d[:length]) if length >= 0 else (lambda d: None))
+        absent = length < 0      # no record at all: the constructor's defaults stay (no "missing bytes are zero" demand)
+        length = max(length, 0)
         # bytes the shorter record does not have are ZERO (the documentation pads the record with zeros): options stored
         # there read as the logical value of a stored 0, not as whatever the constructor put there
         try:
             m0 = C.load_bytes(data).module
             for o in t.options:
-                if o.byte >= length:
+                if o.byte >= length and not absent:
                     n += 1
                     want0 = logical_expected(t, [])
                     z = (1 if o.inverted else 0) if o.size == 1 else max(o.min or 0, 0)
@@ -248,7 +253,7 @@ def foreign_records(tkey):
             pass
         for o in t.options:
             n += 1
-            case = {"type": tkey, "foreign_record": ["short", length, o.name]}
+            case = {"type": tkey, "foreign_record": ["absent" if absent else "short", length, o.name]}
             try:
                 m = C.load_bytes(data).module
             except Exception as e:
@@ -266,6 +271,13 @@ def foreign_records(tkey):
             if got != want:
                 vs.append(C.viol("edit-after-short-record-lost", {"type": tkey, "option": o.name},
                                  {"loaded_record_bytes": length, "assigned": v, "object": want, "read": got}, case))
+            # ... and the save after that one (nothing assigned in between), and the save of a clone
+            for label, again in (("second-save", lambda: C.save(rv.Synth(m))), ("save-of-clone", lambda: C.save(rv.Synth(m.clone())))):
+                b3 = again()
+                got3 = int(getattr(C.load_bytes(b3).module, o.name))
+                if got3 != want:
+                    vs.append(C.viol("edit-after-short-record-lost", {"type": tkey, "option": o.name, "save": label},
+                                     {"loaded_record_bytes": length, "assigned": v, "object": want, "read": got3}, case))
             rl = record_len(b2)
             if rl is None or rl <= top_byte:
                 vs.append(C.viol("record-does-not-cover-highest-byte", {"type": tkey, "after": "short-record"},
